@@ -12,7 +12,7 @@ import (
 type CLIResult struct {
 	Stdout string
 	Stderr string
-	Exit   int  // exit status, -1 if killed by a signal
+	Exit   int // exit status, -1 if killed by a signal
 	Signal string
 }
 
